@@ -80,9 +80,11 @@ C07ok(tr) == AllFinOk(tr)
 \* ---------------------------------------------------------------- C02 / C03 / C04 / C14: outputs are the definition's
 EmitKinds == {"emit"}
 Arr(tr) == [i \in 1..Len(tr) |-> IF tr[i].st.k = "emit" THEN [s |-> tr[i].st.a, inst |-> tr[i].st.b, k |-> tr[i].st.e, v |-> tr[i].st.v]
+                                 ELSE IF tr[i].st.k = "subj" THEN [s |-> SubjBase + tr[i].st.a, inst |-> 0, k |-> tr[i].st.e, v |-> tr[i].st.v]
                                  ELSE [s |-> 0, inst |-> 0, k |-> "x", v |-> 0]]
 \* hot inputs are well-formed: no event for a registration after that registration's own terminal
-WFInput(arr) == \A i, j \in 1..Len(arr) : (i < j /\ arr[i].s # 0 /\ arr[i].k \in {"e", "c"}) => ~(arr[j].s = arr[i].s /\ arr[j].inst = arr[i].inst)
+\* (a plain Subject has no registration of its own: calls after its terminal are ordinary input for whoever subscribes later)
+WFInput(arr) == \A i, j \in 1..Len(arr) : (i < j /\ arr[i].s # 0 /\ arr[i].s < SubjBase /\ arr[i].k \in {"e", "c"}) => ~(arr[j].s = arr[i].s /\ arr[j].inst = arr[i].inst)
 RECURSIVE TermWF(_)
 TermWF(t) == /\ (t.op = "cold" => \A s \in 1..Len(t.scripts) : WellFormed([i \in 1..Len(t.scripts[s]) |-> TEv(0, t.scripts[s][i].k, t.scripts[s][i].v)]))
              /\ \A i \in 1..Len(t.in) : TermWF(t.in[i])
@@ -93,10 +95,10 @@ UnsubStim(tr, u) == IF \E i \in 1..Len(tr) : IsUnsubStim(tr[i], u) THEN CHOOSE i
 \* instance number the leaves get when sink u subscribes: 1 + number of leaf subscriptions seen so far (all leaves must agree)
 LeafSubsBefore(tr, su, id) == Cardinality({ <<i, j>> \in (1..(su - 1)) \X (1..8) : j <= Len(tr[i].obs) /\ tr[i].obs[j].o = "probe" /\ tr[i].obs[j].k = "subscribed" /\ tr[i].obs[j].u = id })
 \* "ok" | "bad" | "na" (outside the domain of the definition: reactions, ill-formed input, subjects, ambiguous instance numbers, divergence)
-RefVerdict(tr, root, reacts) ==
+RefVerdict(tr, root, reacts, plain) ==
   \* a panic inside the library on well-formed input within the domain of the definition is not "the function the definition gives"
-  IF RefDomain(root) /\ TermWF(root) /\ ~reacts /\ WFInput(Arr(tr)) /\ (\E i \in 1..Len(tr) : tr[i].fin \in {"panic", "stuck"}) THEN "bad"      \* (nor is a call that never returns)
-  ELSE IF ~(RefDomain(root) /\ TermWF(root) /\ AllFinOk(tr) /\ ~reacts /\ WFInput(Arr(tr))) THEN "na"
+  IF RefDomain(root, plain) /\ TermWF(root) /\ ~reacts /\ WFInput(Arr(tr)) /\ (\E i \in 1..Len(tr) : tr[i].fin \in {"panic", "stuck"}) THEN "bad"      \* (nor is a call that never returns)
+  ELSE IF ~(RefDomain(root, plain) /\ TermWF(root) /\ AllFinOk(tr) /\ ~reacts /\ WFInput(Arr(tr))) THEN "na"
   \* inner probe-2 instances are numbered in creation order across ALL subscribers: "k-th outer item = instance k" is the real
   \* numbering only while one sink subscribes (or nothing is ever sent to an inner probe)
   ELSE IF AnyProbe2(root) /\ ~OneSink(tr) /\ (\E i \in 1..Len(tr) : Arr(tr)[i].s = 2) THEN "na"
@@ -255,7 +257,7 @@ C17ok(tr, leakSink, leakOps) == (AllFinOk(tr) /\ AllSinksEnded(tr)) => (~leakSin
 \* ---------------------------------------------------------------- all verdicts of one history
 V(b) == IF b THEN "ok" ELSE "bad"      \* verdicts are strings: "ok" | "bad" | "na"
 Judge(tr, root, c, leakSink, leakOps) ==
-  LET rv == RefVerdict(tr, root, HasReact(c)) IN
+  LET rv == RefVerdict(tr, root, HasReact(c), Len(c.sbj) >= 1 /\ c.sbj[1] = "plain") IN
   [C01 |-> V(C01ok(tr)), C05 |-> V(C05ok(tr)), C06 |-> V(HasPublish(c) \/ (C06ok(tr) /\ (HasReact(c) \/ ~OneSink(tr) \/ AmbLosersOK(tr, root)))), C07 |-> V(C07ok(tr)),
    REF |-> rv, TAP |-> V(rv = "na" \/ TapOK(tr, root)), C17 |-> V(C17ok(tr, leakSink, leakOps)),
    C10 |-> C10verdict(tr, root, c), C13 |-> C13verdict(tr, root, c)]
